@@ -102,7 +102,7 @@ theorem genPtsImporter_eq (lines : List PLine) (io : Bool) : genPtsImporter line
         have key2 := ptsFor_loop_of _ _ _ _ _ hfl ?_ ?_
         · rcases key2 with ⟨rows, hb, hl⟩ | ⟨e, hb, hl⟩
           · rw [hl, hb]
-            cases io <;> simp
+            cases io <;> simp [hstackCols_minus1]
           · rw [hl, hb]
         · intro v xs ys ln; simp
         · intro xs ys ln
